@@ -247,6 +247,11 @@ def drawn_point_oracle(p, d):
             for (u, v, em) in d["E"]:
                 if i in (u, v) and py_dec_seg(em)[1] is not None and got[1] is None:
                     got = (got[0], py_dec_seg(em)[1])
+        if want[1] is None and got[1] is not None:
+            # the point itself has no conductor: the one it shows must come from a drawn line / arc ending at it
+            inc = [e.get("cond", 0) for e in p["segments"] + p.get("arcs", []) if qi in (e["n0"], e["n1"])]
+            if got[1] + 1 in inc:
+                got = (got[0], None)
         if got != want:
             return "drawn point %d at (%g,%g) carries (point property, conductor) = %r but its mesh vertex decodes to %r (marker %d)" % (qi, q["x"], q["y"], want, got, m)
     return None
@@ -326,6 +331,7 @@ def correspond(ctx):
     for k in range(count):
         periodic = (k % 3 == 2)
         p = periodic_problem(rng, ["feh", "fem", "fee"][(k // 3) % 3]) if periodic else geomgen.gen_any(rng, k, quick=True)
+        periodic = periodic or p["features"][0].startswith("periodic")
         if not periodic and p["points"] and p.get("pointprops") and rng.random() < 0.5:
             p["points"][rng.randrange(len(p["points"]))]["prop"] = 1
         for ft in p.get("features", []):
